@@ -203,6 +203,13 @@ func applyRewrite(super *ast.Schema, op opgen.Op, kind string, a, b int) (opgen.
 		}
 	case "wrap-inline", "wrap-named":
 		sr := sets[a%len(sets)]
+		// wrapping the body of a selection set of abstract type builds the fragment-inside-an-
+		// abstract-fragment structure this part keeps out (finding
+		// C03-nested-abstract-fragments-not-canonical: also the order of the merged fields then
+		// depends on the wrapping)
+		if td := super.Types[sr.typ]; td != nil && (td.Kind == ast.Interface || td.Kind == ast.Union) && !strings.Contains(os.Getenv("C03_ALLOW"), "fragment-in-abstract-fragment") {
+			return op, false
+		}
 		content := append(ast.SelectionSet{}, (*sr.set)...)
 		if kind == "wrap-inline" {
 			cond := sr.typ
